@@ -28,7 +28,11 @@
    [v0] the original behaviour (kept for the [_refuted] witnesses):
      F-C20a  Workflow.compile dereferenced a missing WorkflowNode (panic),
      F-C20b  graph.compile appended the field-mapping converter to the shared
-             [handlerPreNode] map on every compile.
+             [handlerPreNode] map on every compile,
+     F-C20c  graph.compile dereferenced the nil generic helper of a pass-through node
+             that no data edge or branch had given a type (panic),
+     F-C20d  Chain.addEndIfNeeded returned early once the END edges existed, before
+             looking at the deferred error [c.err].
 
    Definitions only. *)
 From Eino Require Import Base.Util.
@@ -104,9 +108,9 @@ Definition is_nil {A} (l : list A) : bool := match l with [] => true | _ => fals
 Definition is_some {A} (o : option A) : bool := match o with Some _ => true | None => false end.
 
 (* ------------------------------------------------------------------ code version *)
-Record ver : Type := mkVer { v_branch_check : bool; v_prenode_copy : bool }.
-Definition fixed : ver := mkVer true true.
-Definition v0 : ver := mkVer false false.
+Record ver : Type := mkVer { v_branch_check : bool; v_prenode_copy : bool; v_untyped_check : bool; v_chain_err_first : bool }.
+Definition fixed : ver := mkVer true true true true.
+Definition v0 : ver := mkVer false false false false.
 
 (* ------------------------------------------------------------------ graph level *)
 Inductive cmp : Type := CGraph | CChain | CWorkflow.
@@ -368,6 +372,11 @@ Definition validate_dag (g : gstate) : bool :=
 Record copt : Type := mkOpt { o_trigger : option bool; o_max_steps : Z }.
 Definition opt_default : copt := mkOpt None 0%Z.
 
+(* a node whose input or output type is still unknown: a pass-through node that no data
+   edge or branch has reached *)
+Definition has_untyped (g : gstate) : bool :=
+  existsb (fun kn => negb (n_in (snd kn)) || negb (n_out (snd kn))) (g_nodes g).
+
 (* graph.compile *)
 Definition g_compile (v : ver) (g : gstate) (o : copt) : gstate * outcome :=
   match g_err g with
@@ -381,6 +390,7 @@ Definition g_compile (v : ver) (g : gstate) (o : copt) : gstate * outcome :=
       if is_nil (g_starts g) then (g, OErr ENoStart)
       else if is_nil (g_ends g) then (g, OErr ENoEnd)
       else if negb (is_nil (g_pending g)) then (g, OErr EUninferred)
+      else if v_untyped_check v && has_untyped g then (g, OErr EUninferred)
       else if existsb (fun kf => has_dup (snd kf)) (g_fm g) then (g, OErr EDupMapTarget)
       else
         let converters := map fst (g_fm g) in
@@ -388,6 +398,7 @@ Definition g_compile (v : ver) (g : gstate) (o : copt) : gstate * outcome :=
         let g1 := if v_prenode_copy v then g else set_h_prenode (g_h_prenode g ++ converters) g in
         if existsb (fun kn => nkind_eqb (n_kind (snd kn)) NSubBad) (g_nodes g) then (g1, OErr ENoStart)
         else if dag && negb (validate_dag g) then (g1, OErr EDagLoop)
+        else if negb (v_untyped_check v) && has_untyped g then (g1, OPanic)
         else if dag && Z.ltb 0 (o_max_steps o) then (g1, OErr EMaxStepsDag)
         else
           let steps := if negb dag && Z.eqb (o_max_steps o) 0
@@ -557,10 +568,11 @@ Definition c_branch (c : cstate) (items : list citem) : cstate :=
 (* Chain.addEndIfNeeded + graph.compile *)
 Definition c_compile (v : ver) (c : cstate) (o : copt) : cstate * outcome :=
   let pre : cstate * option ecls :=
-    if c_has_end c then (c, None)
+    if negb (v_chain_err_first v) && c_has_end c then (c, None)   (* v0: hasEnd looked at first *)
     else match c_err c with
     | Some e => (c, Some e)
     | None =>
+      if c_has_end c then (c, None) else
       if is_nil (c_pre c) then (c, Some EChainEmpty)
       else
         (fix ends (g : gstate) (ps : list string) : cstate * option ecls :=
